@@ -112,6 +112,8 @@ def direct(run, chk):
             nbad += 1
             chk.violation("kept_rejected_%d" % nbad, {"kind": "program", "source": src, "what": "accepted by unroll() but rejected with the library gates kept external: " + r[1]})
     direct.tally = tally
+    # the whole-program theorem (Lang/BroadcastProofs.v) on every case it applies to, the repository's own test programs included
+    direct.expansion = langcheck.expansion_oracle(run, chk)
 
 
 def run(tier, seed, replay):
@@ -119,5 +121,6 @@ def run(tier, seed, replay):
         return langcheck.replay_cmd(PROP, replay)
     direct.tally = {}
     return langcheck.standard(PROP, tier, seed, cases(tier, seed), classify, direct=direct,
-                              extra_cov=lambda run: {"process_oracle_full_vs_kept_library_gates": direct.tally},
+                              extra_cov=lambda run: {"process_oracle_full_vs_kept_library_gates": direct.tally,
+                                                     "whole_program_theorem_judgement_on_real_programs": getattr(direct, "expansion", {})},
                               trusted=["harness/flatsim.py, harness/gatenum.py (branching state-vector simulator: search oracle)", "spec/gates_spec.py"])
